@@ -75,7 +75,7 @@ func c01world(p c01params) (*chainfx.World, chainfx.HistoryOpts) {
 	if p.Seed%2 == 1 {
 		w.Sharded(3)
 	}
-	return w, chainfx.HistoryOpts{TxPerBlock: 4, WithFlips: true, MoreFlips: true, Onboard: true, OnlineAtOnce: true, Always: map[int]bool{0: true}}
+	return w, chainfx.HistoryOpts{TxPerBlock: 4, WithFlips: true, MoreFlips: true, Onboard: true, OnlineAtOnce: true, Contracts: true, Always: map[int]bool{0: true}}
 }
 
 func traceLine(n *chainfx.Node) string {
@@ -523,7 +523,16 @@ func c01parent(c *hx.Ctx) error {
 		cmd.Dir = dir
 		out, err := cmd.CombinedOutput()
 		if err != nil {
-			return nil, fmt.Errorf("child %s/%s failed: %v\n%s", p.Mode, p.Label, err, tail(string(out), 1500))
+			o := string(out)
+			if i := strings.Index(o, "panic:"); i >= 0 {
+				o = o[i:]
+			} else if i := strings.Index(o, "fatal error:"); i >= 0 {
+				o = o[i:]
+			}
+			if len(o) > 2500 {
+				o = o[:1500] + "\n...\n" + tail(o, 900)
+			}
+			return nil, fmt.Errorf("child %s/%s (process %d) failed: %v\n%s", p.Mode, p.Label, p.Seg, err, o)
 		}
 		rb, err := os.ReadFile(filepath.Join(dir, "report.json"))
 		if err != nil {
